@@ -22,6 +22,8 @@ CLAIMED = {
          'deadlock clause: lock-order relation acyclic (mode aware, one thread per device), no self re-acquisition, no blocking guard across awaits, no suspension between cache insert and re-lookup; livelock/termination not decided', 'C07'),
  'C03': ('bit-provenance abstract interpretation of the installers, must-use def-use of the displaced allocation, data-dependence provenance of every release',
          'COPIED flag and offset field of installed L1/L2 entries, fate of the allocation displaced by map_cluster, source of every free_clusters argument, no constant-zero release count: decided at every site; equality of stored and counted references (arithmetic of spans and counts) not decided', 'C03'),
+ 'C11': ('alignment/interval abstract interpretation of the discard walk (order facts, loop invariants), dominance and data-dependence rules on the per-cluster routine, path-condition typed constants',
+         'inward rounding and clipping of the walked range, exact one-cluster advance, argument-independent success, no-op exits dominate every mutation, stored entry keeps zeros with a backing file, provenance of release and punch, zero-write fallback, release/punch adjacency: decided on every path; bytes read after discard and persistence not decided', 'C11'),
  'C12': ('backend-effect ordering typestate (growth sites of the C04 engine), fault-model typestate for the rollback, data-dependence provenance of the rollback closure, dominance of the zero-length guard, held-lock dataflow',
          'header switch after the relocated table is synced, old table released after the synced switch, rollback runs and restores old-state values, directly written refblock private and zero-padded, zero-length requests filtered, no self-deadlock on the growth path; computed sizes not decided', 'C12'),
  'C09': ('interval abstract interpretation with value numbering (constant propagation per cluster size x refcount width, order facts), header layout scan',
